@@ -72,6 +72,7 @@ prop(
     design_ref="DESIGN.md §4 C04",
     rule="evaluations = successful ClosePosition calls (whole and partial) plus trader actions that lowered the insurance fund. R1 paid-to-trader == margin + pnl - funding owed (pnl from the quote amount in THIS transaction's swap event vs open notional, sign by direction), +-1, and the position is gone; "
          "R2/R3 a (partial) close that succeeds with equity < -1 is a violation; R4 net fall of the insurance fund in Open/Close/Deposit/Withdraw <= rise of State.bad_debt. "
+         "ledger: the margin a later close pays out is only 'the position's margin' if every earlier owner operation booked it correctly, so the per-operation margin/funding identities of C11 R4 (increase, reduce, reversal, partial close, withdraw) run as an auxiliary oracle and report as rule 'ledger:*'. "
          "distinct = (whole/partial, direction, sign pnl, sign funding, vault shortfall, fee config).",
     essential=["whole-closes"],
     text="Payout equals the independently recomputed equity on every observed close, over all sign combinations of PnL and funding the workloads produced.",
@@ -131,10 +132,10 @@ prop(
     technique="transfer-log oracle: exact list of fee transfers per successful operation recomputed from notional and stored ratios",
     design_ref="DESIGN.md §4 C12",
     rule="evaluations = successful Open/Close(whole)/Deposit/Withdraw/PayFunding/Liquidate calls. Open: exactly one transfer floor(N*spread/D) to the insurance fund and one floor(N*toll/D) to the fee pool (none when 0), N=floor(margin*leverage/D), payer = trader (cw20) or engine out of attached funds (native), on increase, reduce and both reversal outcomes; "
-         "whole close: the same on the pre-state open notional; deposit/withdraw/funding/liquidation: nothing to the fee pool and no fee-like transfer to the insurance fund. distinct = (operation, reply path, fee zero / rounds-to-zero / non-zero, collateral kind).",
+         "whole close: the same on the pre-state open notional; partial close: the same on the quote amount the engine asks the vAMM to swap (observed change of the quote reserve); deposit/withdraw/funding/liquidation: nothing to the fee pool and no fee-like transfer to the insurance fund. distinct = (operation, reply path, fee zero / rounds-to-zero / non-zero, collateral kind).",
     essential=["fees:open:fee", "fees:close:fee", "fees:no-fee-ops", "fees:open:rounds-to-zero"],
     text="Exact fee lists checked on every successful operation across toll/spread settings incl. ones rounding to zero.",
-    note="partial-close fees are not pinned by the statement and are not asserted",
+    note="a partial close is read as a quote-denominated trade: fee basis = the quote amount requested to trade (first clause of the statement)",
 )
 prop(
     "C14",
